@@ -59,6 +59,63 @@ def fn_doc(rng):
     return '\n'.join(lines) + '\n'
 
 
+PY_WS = ['\xa0', '\u2003', '\x1c', '\x0b', '\x0c', '\r', '\x85', '\u2028', '\u3000', '\x1f']
+
+
+def dressed_doc(rng):
+    """A flat `doc` whose references and FOOTNOTE block lines carry white space other than the blank next to
+    the marker (no-break space, carriage return, em space, separators: everything str.strip() removes), some
+    with CRLF line endings. Returns (text, [(written marker, expected note text)]) computed from the spec:
+    markers compare after trimming white space; each reference takes the first unused block with its marker
+    in document order (all blocks are siblings in mainBody), else '(content missing)'."""
+    w = gen.Words(rng)
+    marks = rng.choice([['1'], ['1', '2'], ['*', 'a'], ['1', '1', '2']])
+
+    def dress(m):
+        k = rng.random()
+        if k < 0.35:
+            return m + rng.choice(PY_WS)
+        if k < 0.5:
+            return rng.choice(PY_WS) + m
+        if k < 0.55:
+            return rng.choice(PY_WS) + m + rng.choice(PY_WS)
+        return m
+    lines, refs, blocks = [], [], []
+    for _ in range(rng.randint(1, 4)):
+        k = rng.random()
+        if k < 0.6:
+            m = rng.choice(marks)
+            lines.append(w.some(2) + '{{FOOTNOTE %s}}' % dress(m).replace('\r', '\xa0') + ' ' + w.one())
+            refs.append(m)
+        if k > 0.35:
+            m = rng.choice(marks)
+            c = w.one()
+            lines += ['FOOTNOTE ' + dress(m), '  ' + c]
+            blocks.append((m, c))
+    if not lines:
+        lines = [w.one()]
+    used, want = set(), []
+    for m in refs:
+        hit = next((i for i, (bm, _) in enumerate(blocks) if bm == m and i not in used), None)
+        if hit is None:
+            want.append((m, '(content missing)'))
+        else:
+            used.add(hit)
+            want.append((m, blocks[hit][1]))
+    nl = '\r\n' if rng.random() < 0.25 else '\n'
+    return nl.join(lines) + nl, want
+
+
+def dressed_violation(text, want):
+    r = real.convert(text, 'doc')
+    if 'xml' not in r:
+        return None
+    got = [((n[1].get('marker') or ''), first_text(n).strip()) for n in _iter(r['xml']) if n[0] == 'authorialNote']
+    if sorted(got) != sorted(want):
+        return f'notes (marker, text) {sorted(got)[:4]}, but markers equal up to surrounding white space pair up as {sorted(want)[:4]}'
+    return None
+
+
 def pre_resolution_tree(text, root):
     """element tree before post-processing (the real item_to_xml output), canonical"""
     p = real.make_parser()
@@ -265,7 +322,19 @@ def run(ctx, info):
                                  'case': {'text': small, 'root': root}})
     ctx.oblige('oracle: references resolved as the statement prescribes (independent matching on the pre-resolution tree)', 'oracle', nb == 0,
                f'{nb} violations in {len(cases)} documents')
-    cov = {'evaluations': len(cases), 'distinct_nontrivial': len({t for t, r, p in cases if 'FOOTNOTE' in t}),
+    dn = ctx.budget(200, 2500)
+    dressed = [dressed_doc(rng) for _ in range(dn)]
+    e2e.tie_convert(ctx, drv, [(t, 'doc', '') for t, _ in dressed], failures, label='tie convert on documents whose footnote markers carry surrounding white space / CRLF line endings')
+    nd = 0
+    for t, want in dressed:
+        v = dressed_violation(t, want)
+        if v:
+            nd += 1
+            if len(failures) < 25:
+                failures.append({'kind': 'oracle', 'finding': None, 'summary': f'{t[:120]!r} (doc): {v}', 'case': {'text': t, 'root': 'doc', 'want': want}})
+    ctx.oblige('oracle: a marker written with surrounding white space (no-break space, CR, separators) still pairs reference and block', 'oracle', nd == 0,
+               f'{nd} violations in {len(dressed)} documents')
+    cov = {'evaluations': len(cases) + len(dressed), 'distinct_nontrivial': len({t for t, r, p in cases if 'FOOTNOTE' in t}),
            'rule': 'footnote-dense documents (repeated, missing, surplus, out-of-order markers; references in paragraphs, headings, list intros, table cells, attachments; nested blocks) and generated documents; non-trivial = distinct text containing a footnote construct',
            'samples': [{'text': cases[0][0][:400], 'root': cases[0][1]}]}
     return {'coverage': cov, 'failures': failures}
@@ -276,6 +345,6 @@ def replay(ctx, rep):
     if 'text' not in c:
         print('replay file names broken obligations only:', json.dumps(rep.get('broken_obligations'))[:1000])
         return 1
-    v = violation(c['text'], c['root'])
+    v = dressed_violation(c['text'], [tuple(x) for x in c['want']]) if 'want' in c else violation(c['text'], c['root'])
     print('REPRODUCED: ' + v if v else 'not reproduced')
     return 1 if v else 0
